@@ -250,7 +250,9 @@ check_c18(ZCase &c, Verdict &v)
     if (n <= 100) {
       const ZipfDistribution<T> z{mn, mx, c.alpha};
       for (uint64_t k = 0; k < n; k++) {
-        if (a.GetCDF(static_cast<T>(k)) != z.GetCDF(static_cast<T>(k))) {
+        // "reproduces the exact values": equal up to the rounding bound of the exact class (a different but
+        // equally accurate evaluation order in one of the two classes is not a violation)
+        if (!(std::fabs(a.GetCDF(static_cast<T>(k)) - z.GetCDF(static_cast<T>(k))) <= 4.0 * static_cast<double>(n) * 0x1p-53 + 1e-15)) {
           snprintf(b, sizeof b, "approx n=%" PRIu64 " alpha=%.17g: GetCDF(%" PRIu64 ")=%.17g differs from the exact class %.17g", n, c.alpha, k, a.GetCDF(static_cast<T>(k)), z.GetCDF(static_cast<T>(k)));
           v.fail("ZIPF-APPROX-EXACT", b);
           break;
